@@ -556,7 +556,7 @@ pub fn parse_output_format(
 
 	let check_nonzero = &mut |value: usize| -> bool
 	{
-		value > 0
+		value > 0 && value <= u16::MAX as usize
 	};
 
 	let check_valid_base = &mut |base: usize| -> bool
